@@ -18,7 +18,7 @@ RULE = (
     "borders} x {subruns listed in / against start order} x rechunk_on_load {off, 1, 2 rows} x {single-kind chain, second-level "
     "plugin consuming two data kinds of which one is rechunked across subrun borders, optionally made and stored first}; "
     "histories: make/get, re-read from a fresh context, redefine with fewer subruns / with the same runs but a time-range "
-    "selection inside the first subrun. oracle: "
+    "selection (aligned with chunk borders) inside the first subrun and the other subruns complete - rows checked on the fly and re-read. oracle: "
     "superrun rows == concatenation of the subruns' rows in order of run start (on the fly and re-read); every yielded and "
     "stored chunk lists exactly the subruns that contributed rows or time to it, each span inside that subrun's range, "
     "containing the chunk's rows of that run and intersecting the chunk; spans of one run over consecutive chunks are adjacent; "
@@ -302,6 +302,10 @@ def run_case(res, lays, level, write, rc, proc, history, ext=None):
                 new_spec[r0] = [int((runs[r0]["offset"] + b0[-2]) * U), int((runs[r0]["offset"] + b0[-1]) * U)]
                 st3.define_run(name, new_spec)
                 new_order = None
+                t0 = new_spec[r0][0]
+                # the range is aligned with the subrun's own chunk borders and ends with the subrun: exactly the rows of the
+                # first subrun that start at or after t0 remain, every other subrun ("all") is complete
+                want_range = np.concatenate([exp[r0][exp[r0]["time"] >= t0]] + [exp[r] for r in order[1:]])
             else:
                 new_order = order[:-1]
                 st3.define_run(name, new_order[::-1] if ext["rev"] else new_order)
@@ -314,6 +318,13 @@ def run_case(res, lays, level, write, rc, proc, history, ext=None):
                 want2 = np.concatenate([exp[r] for r in new_order])
                 if not ctxrun.rows_equal(a, want2):
                     res.violation("redefine:stale-rows", f"after redefinition rows {a['rid'].tolist()} expected {want2['rid'].tolist()}", case)
+            elif len(want_range):
+                for attempt in ("on-the-fly", "re-read"):
+                    stx = st3 if attempt == "on-the-fly" else ctx()
+                    a = call(lambda: stx.get_array(name, "lv2", processor=proc, progress_bar=False, multi_run_progress_bar=False))
+                    if not ctxrun.rows_equal(a, want_range):
+                        res.violation(f"range-selection:rows:{attempt}", f"superrun with subrun {r0} restricted to [{t0}, end) and the others complete: rows {a['rid'].tolist()} expected {want_range['rid'].tolist()}", case)
+                        break
             res.count("redefinitions_" + ext["redef"])
         except Exception as e:
             res.violation(xfp(zdc, "redefine", e), f"{type(e).__name__}: {e}"[:300], case)
